@@ -1,7 +1,7 @@
 """C06 - calls return to their call site; arguments and results arrive intact."""
 from __future__ import annotations
 
-from .. import comp, e1, gen, harness
+from .. import comp, e1, gen, harness, probes
 from . import base
 from .c07 import _sum_solver
 
@@ -108,6 +108,7 @@ def run(tier: str) -> int:
     n = 20 if tier == "thorough" else 5
     items = []
     progs = [(f"fixed:{k}", v, []) for k, v in FIXED.items()]
+    progs += [(f"probe:{k}", v, []) for k, v in probes.call_probes()]
     for sp in base.gen_specs(n, cfg(), tier, salt=17):
         progs.append((sp["name"], sp["sources"], sp["features"]))
     for name, src, feats in progs:
